@@ -74,6 +74,11 @@ pub fn rand_retry_after(rng: &mut Rng) -> String {
     }
 }
 
+/// the X-Retry-After header of a response of the directed reboot scenario: absent, a small plain number, or any of the odd values
+fn scn_ra(rng: &mut Rng) -> Vec<Value> {
+    match rng.below(6) { 0 | 1 => vec![hx(&(rng.below(5000)).to_string())], 2 => vec![hx(&rand_retry_after(rng))], _ => vec![] }
+}
+
 pub fn rand_doc(rng: &mut Rng, app_ids: &[String], k: &Knobs) -> Value {
     let mut ids: Vec<String> = app_ids.to_vec();
     // shuffle, drop some, add unknown / duplicate ids sometimes
@@ -159,7 +164,14 @@ pub fn gen_sm(rng: &mut Rng, k: &Knobs) -> Value {
         let i = rng.below(napps as u64) as usize;
         if i > 0 && rng.chance(1, 2) { apps[i]["id"] = json!(""); app_ids[i] = String::new(); } else { apps[i]["ver"] = json!([0, 0, 0, 0]); }
     }
-    let url = if rng.below(100) < k.bad_url_pct { *rng.pick(&BAD_URLS) } else { *rng.pick(&GOOD_URLS) };
+    let gen_url;
+    let url = if rng.below(100) < k.bad_url_pct { *rng.pick(&BAD_URLS) }
+              else if rng.chance(1, 4) {
+                  // from the grammar, when the http crate takes it as an absolute URL
+                  let u = rand_url(rng);
+                  gen_url = if u.parse::<http::Uri>().map(|p| p.scheme().is_some() && p.authority().is_some()).unwrap_or(false) { u } else { "http://h/p/".to_string() };
+                  gen_url.as_str()
+              } else { *rng.pick(&GOOD_URLS) };
     let os_version = format!("{}.{}.0.0", 1 + rng.below(3), rng.below(3));
     let config = json!({"name": hx(&rand_ident(rng)), "uver": rand_version(rng),
                         "os": [hx("plat"), hx(&os_version), hx("sp"), hx("arch")], "url": hx(url)});
@@ -202,8 +214,11 @@ pub fn gen_sm(rng: &mut Rng, k: &Knobs) -> Value {
     }
     for (i, id) in app_ids.iter().enumerate() {
         if rng.chance(1, 3) {
-            let v = match rng.below(6) {
-                0 => "not json".to_string(), 1 => "{}".to_string(), 2 => "{\"cohort\":{},\"user_counting\":{\"ClientRegulatedByDate\":null},\"extra\":[1,{\"a\":null}]}".to_string(),
+            let v = match rng.below(8) {
+                0 => "not json".to_string(), 1 => "{}".to_string(),
+                // undecodable records of some length: plain garbage, and JSON that lacks a required field
+                6 => format!("not json {}", boundary_text(rng, 4096)),
+                7 => format!("{{\"cohort\":{{\"cohort\":null,\"cohorthint\":null,\"cohortname\":\"{}\"}}}}", boundary_text(rng, 1024)), 2 => "{\"cohort\":{},\"user_counting\":{\"ClientRegulatedByDate\":null},\"extra\":[1,{\"a\":null}]}".to_string(),
                 _ => serde_json::to_string(&PersistedApp::from(&app_of(&rand_app_json(rng, id, 0)))).unwrap(),
             };
             put(id, json!({"str": hx(&v)}));
@@ -269,14 +284,14 @@ pub fn gen_sm(rng: &mut Rng, k: &Knobs) -> Value {
             let apps: Vec<Value> = app_ids.iter().map(|id| json!({"id": hx(id),
                 "cohort": {"id": ohx(&opt_co(rng)), "hint": ohx(&opt_co(rng)), "name": ohx(&opt_co(rng))},
                 "uc": {"status": "ok", "manifest": hx(&format!("{}.{}.0.0", 2 + rng.below(8), rng.below(20)))}})).collect();
-            json!({"status": 200, "retry_after": [], "auth": "genuine", "body": {"doc": {"daystart": {"days": rng.below(10000)}, "apps": apps}}})
+            json!({"status": 200, "retry_after": scn_ra(rng), "auth": "genuine", "body": {"doc": {"daystart": {"days": rng.below(10000)}, "apps": apps}}})
         };
         let mut h = vec![ok_doc(rng)];
         for _ in 0..(3 + rng.below(8)) {
-            h.push(match rng.below(8) {
-                0 => rand_http(rng, &app_ids, k, cup_on),
+            h.push(match rng.below(9) {
+                0 | 2 => rand_http(rng, &app_ids, k, cup_on),
                 // a ping (or report) answered 2xx by something that is not Omaha: a failed exchange that reached no server
-                1 => json!({"status": *rng.pick(&[200u64, 204, 299]), "retry_after": [], "auth": "genuine",
+                1 => json!({"status": *rng.pick(&[200u64, 204, 299]), "retry_after": scn_ra(rng), "auth": "genuine",
                             "body": {"bad": hex::encode(*rng.pick(&[&b"<html>captive portal</html>"[..], b"", b"{}", b")]}'\n"]))}}),
                 _ => ok_doc(rng) });
         }
